@@ -1582,13 +1582,26 @@ def int_bounds_eval(case):
     kind, p, x, sc = case["kind"], case["params"], case["x"], case["script"]
     ty = getattr(np, case["type"])
     pt = dict(p, lo=ty(p["lo"]), hi=ty(p["hi"]))
-    with np.errstate(all="ignore"), __import__("warnings").catch_warnings():
-        __import__("warnings").simplefilter("ignore")
+    import signal
+    import warnings as _w
+
+    def _alarm(*_a):
+        raise TimeoutError()
+    with np.errstate(all="ignore"), _w.catch_warnings():
+        _w.simplefilter("ignore")
         a = run(kind, p, x, sc)
+        old = signal.signal(signal.SIGALRM, _alarm)
+        signal.alarm(5)
         try:
             b = run(kind, pt, x, sc)
         except (TypeError, ValueError):
             return None                      # this type of bound is refused: nothing is released
+        except TimeoutError:
+            return (f"{CLASSNAME[kind]}({p} with lower=np.{case['type']}({p['lo']}), upper=np.{case['type']}({p['hi']})).randomise({x!r}) "
+                    f"did not return within 5 s; with python-int bounds it releases {a[0] if a else None!r} on the same stream")
+        finally:
+            signal.alarm(0)
+            signal.signal(signal.SIGALRM, old)
     if a is None or b is None:
         return None
     oa, ob = float(a[0]), float(np.asarray(b[0]).astype(np.float64))
@@ -1617,9 +1630,11 @@ def run_types(ctx):
             ctx.count("param_type_" + what.split(" ")[0])
             if bad:
                 ctx.violation(f"C03:{CLASSNAME[kind]}:noise-depends-on-parameter-dtype", bad, {"check": "param-type", "what": bad})
-            if kind in ("trunc", "fold", "bdom", "snap"):
+            if kind in ("trunc", "fold", "bdom", "snap") and ctx.counters.get("int_bounds_hung_" + kind, 0) < 2:
                 for _ in range(2):
                     bad, case = int_bounds_case(kind, rk)
+                    if bad and "did not return" in bad:
+                        ctx.count("int_bounds_hung_" + kind)
                     ctx.case(("int-bounds", kind, case["type"], case["x"]))
                     if bad:
                         ctx.violation(f"C03:{CLASSNAME[kind]}:integer-typed-bounds-wrap", bad, {"check": "int-bounds", "ib": case})
